@@ -215,6 +215,15 @@ def histogram2d_case(seed):
             em = np.where(ec > 0, eo[1] / np.maximum(ec, 1), 0.0)
         if not np.allclose(np.ma.filled(m_layer, 0.0), em):
             return {"what": "mean layer differs", "input": {"seed": seed}}
+        # one Layer object without an operation of its own, reused in two calls whose call-level operation differs
+        lay = Layer(wa)
+        first_op, second_op = ("sum", "mean") if seed % 2 else ("mean", "sum")
+        histogram2d(xa, ya, lay, operation=first_op, resolution=res, plot=False, **kw)
+        o2 = histogram2d(xa, ya, lay, operation=second_op, resolution=res, plot=False, **kw)
+        want2 = em if second_op == "mean" else eo[0]
+        if not np.allclose(np.ma.filled(o2.layers[0]["data"], 0.0), want2):
+            return {"what": "Layer reused after a call with operation=%r: the %r histogram differs from sum%s per bin" % (
+                first_op, second_op, "/count" if second_op == "mean" else ""), "input": {"seed": seed, "reused_layer": True}}
     if not explicit and partial is None and near == 0 and int(got_counts.sum()) != int(fin.sum()):
         return {"what": "automatic limits lose points: %d binned of %d finite (kind %d)" % (got_counts.sum(), fin.sum(), kind),
                 "input": {"seed": seed}}
